@@ -566,6 +566,7 @@ func ext۰reflect۰Value۰Type(fr *frame, args []value) value {
 
 func ext۰reflect۰Value۰Uint(fr *frame, args []value) value {
 	t := mustValid("reflect.Value.Uint", args[0])
+	fr.i.x.noteRead(rVAddr(args[0]))
 	switch v := rV2V(args[0]).(type) {
 	case uint:
 		return uint64(v)
@@ -589,6 +590,7 @@ func ext۰reflect۰Value۰Uint(fr *frame, args []value) value {
 
 func ext۰reflect۰Value۰Int(fr *frame, args []value) value {
 	t := mustValid("reflect.Value.Int", args[0])
+	fr.i.x.noteRead(rVAddr(args[0]))
 	switch x := rV2V(args[0]).(type) {
 	case int:
 		return int64(x)
@@ -610,6 +612,7 @@ func ext۰reflect۰Value۰Int(fr *frame, args []value) value {
 
 func ext۰reflect۰Value۰Float(fr *frame, args []value) value {
 	t := mustValid("reflect.Value.Float", args[0])
+	fr.i.x.noteRead(rVAddr(args[0]))
 	switch v := rV2V(args[0]).(type) {
 	case float32:
 		return float64(v)
@@ -625,6 +628,7 @@ func ext۰reflect۰Value۰Float(fr *frame, args []value) value {
 
 func ext۰reflect۰Value۰Bool(fr *frame, args []value) value {
 	t := mustValid("reflect.Value.Bool", args[0])
+	fr.i.x.noteRead(rVAddr(args[0]))
 	if reflectKind(t) != reflect.Bool {
 		panic(valueErr("reflect.Value.Bool", t))
 	}
@@ -1038,11 +1042,13 @@ func ext۰reflect۰Value۰Set(fr *frame, args []value) value {
 		panic("reflect.Set: value of type " + typeString(xt) + " is not assignable to type " + typeString(t))
 	}
 	store(t, a, assignConv(t, xt, copyOf(xt, rV2V(args[1]))))
+	fr.i.x.noteAccess(a, true)
 	return nil
 }
 
 func ext۰reflect۰Value۰SetInt(fr *frame, args []value) value {
 	t, a := mustSettable("reflect.Value.SetInt", args[0])
+	fr.i.x.noteWrite(a)
 	if k := reflectKind(t); k < reflect.Int || k > reflect.Int64 {
 		panic(valueErr("reflect.Value.SetInt", t))
 	}
@@ -1056,6 +1062,7 @@ func ext۰reflect۰Value۰SetInt(fr *frame, args []value) value {
 
 func ext۰reflect۰Value۰SetUint(fr *frame, args []value) value {
 	t, a := mustSettable("reflect.Value.SetUint", args[0])
+	fr.i.x.noteWrite(a)
 	if k := reflectKind(t); k < reflect.Uint || k > reflect.Uintptr {
 		panic(valueErr("reflect.Value.SetUint", t))
 	}
@@ -1069,6 +1076,7 @@ func ext۰reflect۰Value۰SetUint(fr *frame, args []value) value {
 
 func ext۰reflect۰Value۰SetFloat(fr *frame, args []value) value {
 	t, a := mustSettable("reflect.Value.SetFloat", args[0])
+	fr.i.x.noteWrite(a)
 	k := reflectKind(t)
 	if k != reflect.Float32 && k != reflect.Float64 {
 		panic(valueErr("reflect.Value.SetFloat", t))
@@ -1087,6 +1095,7 @@ func ext۰reflect۰Value۰SetFloat(fr *frame, args []value) value {
 
 func ext۰reflect۰Value۰SetBool(fr *frame, args []value) value {
 	t, a := mustSettable("reflect.Value.SetBool", args[0])
+	fr.i.x.noteWrite(a)
 	if reflectKind(t) != reflect.Bool {
 		panic(valueErr("reflect.Value.SetBool", t))
 	}
@@ -1096,6 +1105,7 @@ func ext۰reflect۰Value۰SetBool(fr *frame, args []value) value {
 
 func ext۰reflect۰Value۰SetString(fr *frame, args []value) value {
 	t, a := mustSettable("reflect.Value.SetString", args[0])
+	fr.i.x.noteWrite(a)
 	if reflectKind(t) != reflect.String {
 		panic(valueErr("reflect.Value.SetString", t))
 	}
